@@ -340,7 +340,8 @@ func (u *Upstream) run(isResume bool) error {
 						DataPointGroups: dpg,
 					},
 				}
-				resultCh := make(chan *message.UpstreamChunkResult)
+				// capacity 1: a result that arrives after its waiter gave up (ack timeout) must not block processResult
+				resultCh := make(chan *message.UpstreamChunkResult, 1)
 				u.mu.Lock()
 				u.upstreamChunkResultChs[chunk.StreamChunk.SequenceNumber] = resultCh
 				u.mu.Unlock()
@@ -504,7 +505,8 @@ func (u *Upstream) flush(ctx context.Context) error {
 		return err
 	}
 
-	resultCh := make(chan *message.UpstreamChunkResult)
+	// capacity 1: a result that arrives after its waiter gave up (ack timeout) must not block processResult
+	resultCh := make(chan *message.UpstreamChunkResult, 1)
 	u.upstreamChunkResultChs[msgChunk.StreamChunk.SequenceNumber] = resultCh
 	go u.sendChunkAndWaitAck(ctx, msgChunk, resultCh)
 	return nil
